@@ -27,6 +27,15 @@ var vsiClasses = []string{"https://psa-verifier.org", "vérifier-世", "q\"uo\\t
 
 // genValid draws a valid claims-set. utf8bad: additionally allow an invalid-UTF-8 VSI / component text.
 func genValid(c *choice.Ctx, kind int, allowBadUTF8 bool) *refmodel.Claims {
+	return genValidOpt(c, kind, allowBadUTF8, false)
+}
+
+// genValidOpt: lean = the short text alphabets (for checks that are not about text content).
+func genValidOpt(c *choice.Ctx, kind int, allowBadUTF8, lean bool) *refmodel.Claims {
+	textClasses, vsiClasses := textClasses, vsiClasses
+	if lean {
+		textClasses, vsiClasses = textClasses[:4], vsiClasses[:3]
+	}
 	a := &refmodel.Claims{}
 	switch kind {
 	case kindP1:
